@@ -95,10 +95,7 @@ def viewOf (k : Kind) (f : SFile) : Option View :=
 /-- the memory-mapped readers: records of `cells + 4` words; slabs per step from the first change of
 (time, date); the record count must be a multiple of it; at least two steps (with one step no record differs
 from the first: `one3d` raises IndexError, the other two infer a wrong layer count — outside the domain) -/
-def mmDecode (k : Kind) (cells : Nat) (ws : List Word) : Option View :=
-  -- `memmap.reshape(records, cells + 4)` fails unless the file is a whole number of records
-  if ws.length % (cells + 4) ≠ 0 then none else
-  let rs := chunk (cells + 4) ws ws.length
+def mmRows (k : Kind) (rs : List (List Word)) : Option View :=
   let m := leading rs
   if m = 0 ∨ m = rs.length ∨ rs.length % m ≠ 0 then none else
   -- the readers that check the Fortran markers (temperature, height_pressure) raise on a mismatch
@@ -111,6 +108,10 @@ def mmDecode (k : Kind) (cells : Nat) (ws : List Word) : Option View :=
       { nt := steps.length, nz := nz,
         flags := steps.map (fun s => ((recTD (s.headD [])).2, (recTD (s.headD [])).1)),
         vars := rest.foldl (fun acc st => mergeVars acc (stepVars k (st.map recCells))) (stepVars k (s0.map recCells)) })
+
+def mmDecode (k : Kind) (cells : Nat) (ws : List Word) : Option View :=
+  -- `memmap.reshape(records, cells + 4)` fails unless the file is a whole number of records
+  if ws.length % (cells + 4) ≠ 0 then none else mmRows k (chunk (cells + 4) ws ws.length)
 
 /-! ### wire format -/
 open Wire
